@@ -22,13 +22,14 @@ CHECKS = {
 
 CHECKS["C02"] = dict(
     text="Bounded model checking of the real dependency classification / process / invoke code for every component type: one "
-         "component over <=3 (quick) / <=4 (thorough) dependencies with every role assignment (required, two at-least-one groups, "
+         "component over <=3 dependencies (<=4 in the thorough tier) with every role assignment (required, two at-least-one groups, "
          "optional, membership in both groups), every declaration order, every dependency outcome; dependency values are "
          "unconstrained symbolic ints so positional binding is a solver-discharged equality; the enabled switch is a symbolic "
          "boolean read by the real guard. apply_default_enabled/apply_configs are run from arbitrary earlier set_enabled/is_enabled "
          "histories with symbolic enabled values.",
-    note="Bounds: <=4 dependencies, <=3 config entries over a 6-name pool; outside: deprecated `metadata` type, cluster group, "
-         "set-iteration schedules (C04).")
+    note="Bounds: <=3 (quick) / <=4 (thorough) dependencies, <=3 config entries over a 6-name pool; component kinds: plain, combiner, condition, "
+         "rule, parser, datasource and a registry-point-like datasource over datasource dependencies; outside: deprecated `metadata` type, "
+         "cluster group, set-iteration schedules (C04).")
 CHECKS["C03"] = dict(
     text="Bounded model checking of the real try/except ladders (run_components, PluginType/datasource/parser.invoke) on a "
          "datasource -> registry point -> (multi-output) parser -> combiner -> rule pipeline plus an unrelated leaf: every placement "
@@ -105,7 +106,8 @@ CHECKS["C17"] = dict(
          "stable identifier and never rewrite a valid file.",
     note="Stubs: os/open/uuid of insights.client.utilities, _get_rhsm_identity; validated by running the same concrete cases on a "
          "real temporary directory. Outside: directories at marker paths, concurrent clients, identifier stability when the "
-         "configuration directory does not exist (write_to_disk ignores missing directories by design).")
+         "configuration directory does not exist (write_to_disk ignores missing directories by design), the client orchestration "
+         "above the helpers (client.py / connection.py / support.py: when the helpers are called, caches put in front of them).")
 
 CHECKS["C16"] = dict(
     text="Bounded symbolic execution of the real InsightsConfig loading / implication / validation code: InsightsConfig(**kw) with "
